@@ -571,6 +571,14 @@ func (e *SpecEnv) call(x *SExpr) Val {
 			m, _ := e.deref(e.eval(args[0]))
 			k := e.term(e.eval(args[1]))
 			return boolV(Select(SelField(m.Sort.Ctors[0], 0, m), k))
+		case "iszero":
+			v := e.eval(args[0])
+			t := e.term(v)
+			typ := e.typeOf(v)
+			if typ == nil {
+				return boolV(Eq(t, IntC(0)))
+			}
+			return boolV(Eq(t, zeroOfSort(t.Sort, typ)))
 		case "isnil":
 			v := e.eval(args[0])
 			t := e.term(v)
